@@ -4,6 +4,23 @@ import json, os
 HERE = os.path.dirname(os.path.dirname(os.path.abspath(__file__)))
 src = json.load(open(os.path.join(HERE, "tools", "manifest_src.json")))
 props = [json.loads(l) for l in open(os.path.join(HERE, "properties.jsonl"))]
+import importlib, sys
+sys.path[:0] = [os.environ.get("VERIF_REPO", "/repo"), HERE]
+
+
+def meta_note(pid, fallback):
+    """bounds / outside / assumptions as the harness module itself states them (single source of truth)"""
+    try:
+        M = importlib.import_module("harness." + pid).META
+    except Exception:
+        return fallback
+    b = M.get("bounds", {})
+    if isinstance(b, str):
+        b = {"quick": b, "thorough": b}
+    return ("bounds - quick: %s; thorough: %s. outside the claim: %s. assumptions: %s"
+            % (b.get("quick", "-"), b.get("thorough", "-"), "; ".join(M.get("outside", [])), "; ".join(M.get("assumptions", []))))[:3000]
+
+
 checks, na = [], []
 for p in props:
     pid = p["id"]
@@ -19,7 +36,7 @@ for p in props:
         "replay_cmd_template": "./check %s --replay {path}" % pid,
         "engine": c.get("engine", "symten"),
         "level_claimed": {"category": c.get("category", "other"), "text": c["text"], "design_ref": "DESIGN.md section 4 / %s" % pid},
-        "level_note": c["note"],
+        "level_note": meta_note(pid, c["note"]),
         "technique": c.get("technique", "ATen-level symbolic execution of the real code; z3 (QF_NRA) validity queries per obligation; counterexample replay on the real code"),
     })
 engines = src["engines"]
